@@ -835,7 +835,8 @@ Eval(e, env, log) ==
                                           ELSE LET v == Eval(Head(ps)[2], <<ArgFrame(<<r.v>>)>> \o env, lg)
                                                IN IF IsErr(v.v) THEN v ELSE As(Tail(ps), v.log, Append(fr, <<Head(ps)[3], v.v>>))
                     IN As(e[4], r.log, ArgFrame(<<r.v>>))
-               ELSE LET user == Lookup(env, "fn:" \o f)
+               ELSE LET user == <<"none">>      \* (a def-ined function is a function only: `x.f()` never reaches it, and a library
+                                                \*  method of the same name is still the method)
                     IN IF user[1] = "lam" THEN
                             LET a == EvalSeq(e[4], env, r.log, <<>>) IN IF IsErr(a.v) THEN a ELSE Apply(user, <<r.v>> \o a.v[2], a.log)
                        ELSE \* arguments: closures for lambda parameters, values otherwise, left to right
